@@ -38,6 +38,7 @@ type Program struct {
 	Init       []string   // letters applied sequentially before the threads start
 	Threads    [][]string // calls per thread, e.g. "Publish:1", "Consume:0,40"
 	Block      bool       // open with OpenBlocking (C18)
+	Typed      bool       // with Block: open with OpenTBlocking (typed twin of the blocking wrapper, typed_blocking.go) behind an adapter
 	Notify     int64      // >= 0 with NotifyOnly: the notifier alone, starting at this offset
 	NotifyOnly bool
 	Durable    bool // record the file-system journal: every acknowledgement of durability is checked against power loss (C06)
@@ -48,7 +49,11 @@ func (p Program) String() string {
 	for _, t := range p.Threads {
 		ts = append(ts, strings.Join(t, ";"))
 	}
-	return fmt.Sprintf("%s{init=%v cfg=[%s] %s}", p.Name, p.Init, p.Cfg, strings.Join(ts, " || "))
+	ty := ""
+	if p.Typed {
+		ty = " typed"
+	}
+	return fmt.Sprintf("%s{init=%v cfg=[%s]%s %s}", p.Name, p.Init, p.Cfg, ty, strings.Join(ts, " || "))
 }
 
 // Res is the observed result of one call.
@@ -373,7 +378,16 @@ func Exec(p Program, choices []int, free bool) (*Execution, error) {
 			return nil, err
 		}
 		w.L = nil
-		bl, err := klevdb.OpenBlocking(w.Dir, p.Cfg.Options())
+		var bl klevdb.BlockingLog
+		var err error
+		if p.Typed {
+			var tl klevdb.TBlockingLog[[]byte, []byte]
+			if tl, err = klevdb.OpenTBlocking[[]byte, []byte](w.Dir, p.Cfg.Options(), rawCodec{}, rawCodec{}); err == nil {
+				bl = &typedBlocking{Log: tl.Raw(), t: tl}
+			}
+		} else {
+			bl, err = klevdb.OpenBlocking(w.Dir, p.Cfg.Options())
+		}
 		if err != nil {
 			return nil, err
 		}
